@@ -380,3 +380,253 @@ Proof.
       * right; left; right; exact H.
       * right; right; right; exact H.
 Qed.
+
+(* ------------------------------------------------------------------ *)
+(* every micro-step of the model is one of the effects *)
+
+Inductive effs : astate -> astate -> Prop :=
+| effs_refl a : effs a a
+| effs_step a b c : eff a b -> effs b c -> effs a c.
+
+Lemma effs_one a b : eff a b -> effs a b.
+Proof. intros H. eapply effs_step; [exact H | apply effs_refl]. Qed.
+
+Lemma effs_trans a b c : effs a b -> effs b c -> effs a c.
+Proof. intros H1 H2. induction H1; [exact H2|]. eapply effs_step; eauto. Qed.
+
+Lemma effs_preserves a b : effs a b -> AInv a -> AInv b.
+Proof. intros H; induction H; intros I; [exact I|]. apply IHeffs. eapply eff_preserves; eauto. Qed.
+
+Ltac simpl_abs :=
+  unfold abs, upstream, inq_ids, cur_ids, finish_call, ids;
+  cbn [next_id sendq cur wire inq waiting evq trace].
+
+Lemma pump_abs f s : abs (pump f s) = abs s.
+Proof.
+  revert s; induction f as [|f IH]; intros s; cbn [pump]; [reflexivity|].
+  destruct (cur s) as [p|] eqn:Ec; [reflexivity|].
+  rewrite sendq_take. destruct (sendq s) as [|c rest] eqn:Eq; [reflexivity|].
+  destruct (stalls c) eqn:Es.
+  - rewrite IH. simpl_abs. rewrite Ec, Eq. f_equal. rewrite map_app. cbn [map app]. rewrite <- app_assoc. reflexivity.
+  - simpl_abs. rewrite Ec, Eq. reflexivity.
+Qed.
+
+Lemma issue_eff st f s : eff (abs s) (abs (issue st f s)).
+Proof.
+  unfold issue. rewrite sendq_put.
+  set (s1 := mk (S (next_id s)) _ _ _ _ _ _ _).
+  assert (E : abs s1 = amk (S (next_id s)) (ids (waiting s)) (inq_ids s) (upstream s ++ [next_id s]) (trace s)).
+  { subst s1. simpl_abs. f_equal. rewrite map_app. cbn [map cid]. rewrite !app_assoc. reflexivity. }
+  match goal with |- context [if ?b then _ else _] => destruct b end; rewrite ?pump_abs, E; apply E_issue.
+Qed.
+
+Lemma release_abs s : abs (release s) = abs s.
+Proof.
+  unfold release. destruct (cur s) as [[c [|[|m]]]|] eqn:Ec; try reflexivity.
+  - rewrite pump_abs. simpl_abs. rewrite Ec. f_equal. rewrite map_app. cbn [map app]. rewrite <- !app_assoc. reflexivity.
+  - rewrite pump_abs. simpl_abs. rewrite Ec. f_equal. rewrite map_app. cbn [map app]. rewrite <- !app_assoc. reflexivity.
+  - simpl_abs. rewrite Ec. reflexivity.
+Qed.
+
+Lemma deliver_eff s : eff (abs s) (abs (deliver s)).
+Proof.
+  unfold deliver. destruct (wire s) as [|c w] eqn:Ew; [apply E_none|].
+  assert (Eu : upstream s = cid c :: (ids w ++ cur_ids s ++ ids (sendq s))).
+  { unfold upstream. rewrite Ew. reflexivity. }
+  unfold abs at 1. rewrite Eu.
+  destruct (cfate c) eqn:Ef; rewrite ?inq_put; simpl_abs; rewrite ?map_app; cbn [map fst];
+    try apply E_queue; apply E_reject.
+Qed.
+
+Lemma fin_if (b : bool) c : (if b then Entered c else Failed c) = fin_event (if b then FinEntered else FinFailed) c.
+Proof. destruct b; reflexivity. Qed.
+
+Lemma wait_len s : AInv (abs s) -> waiting s = [] \/ exists x, waiting s = [x].
+Proof.
+  intros I. pose proof (ai_wait _ I) as H. unfold abs in H; cbn [a_wait] in H. unfold ids in H. rewrite map_length in H.
+  destruct (waiting s) as [|x [|y l]]; [left; reflexivity | right; eexists; reflexivity | cbn in H; lia].
+Qed.
+
+Lemma do_next_eff s : AInv (abs s) -> eff (abs s) (abs (do_next s)).
+Proof.
+  intros I. unfold do_next, blocked. rewrite hol_is_blocking.
+  destruct (wait_len s I) as [Ew|[x Ew]]; rewrite Ew; cbn [is_nil negb]; [|apply E_none].
+  rewrite inq_take. destruct (inq s) as [|[c r] rest] eqn:Ei; [apply E_none|].
+  destruct r; simpl_abs; rewrite ?Ew, ?Ei; cbn [map fst app].
+  - rewrite fin_if. apply E_finish_inq.
+  - apply E_hold.
+  - cbn [andb]. apply (E_finish_inq _ _ _ _ _ FinFailed).
+Qed.
+
+Lemma inq_ids_map (g : call * rdy -> call * rdy) l :
+  (forall e, fst (g e) = fst e) -> map fst (map g l) = map fst l.
+Proof. intros Hg. rewrite map_map. apply map_ext. exact Hg. Qed.
+
+Lemma gift_ready_eff k ok s : AInv (abs s) -> eff (abs s) (abs (gift_ready k ok s)).
+Proof.
+  intros I. unfold gift_ready.
+  assert (Hmap : forall l : list (call * rdy),
+            map fst (map (fun e => if (cid (fst e) =? k) && is_pending (snd e)
+                                   then (fst e, if ok then Ready else Broken) else e) l) = map fst l).
+  { intros l. apply inq_ids_map. intros e. destruct ((cid (fst e) =? k) && is_pending (snd e)); reflexivity. }
+  destruct (wait_len s I) as [Ew|[x Ew]]; rewrite Ew; cbn [find filter].
+  - simpl_abs. rewrite Hmap, Ew. apply E_none.
+  - destruct (cid x =? k) eqn:Ek; cbn [negb].
+    + simpl_abs. rewrite Ew. cbn [map]. rewrite fin_if. apply E_finish_wait.
+    + simpl_abs. rewrite Hmap, Ew. apply E_none.
+Qed.
+
+Lemma thunks_effs batch : forall s, AInv (abs s) -> effs (abs s) (abs (fold_left run_thunk batch s)).
+Proof.
+  induction batch as [|t batch IH]; intros s I; cbn [fold_left]; [apply effs_refl|].
+  destruct t; cbn [run_thunk].
+  pose proof (do_next_eff s I) as E.
+  eapply effs_step; [exact E|]. apply IH. eapply eff_preserves; eauto.
+Qed.
+
+Lemma turn_effs s : AInv (abs s) -> effs (abs s) (abs (turn s)).
+Proof. intros I. unfold turn. apply (thunks_effs _ (mk _ _ _ _ _ _ [] _)). exact I. Qed.
+
+Lemma step_effs s o : AInv (abs s) -> effs (abs s) (abs (step s o)).
+Proof.
+  intros I. destruct o; cbn [step].
+  - apply effs_one, issue_eff.
+  - rewrite release_abs. apply effs_refl.
+  - apply effs_one, deliver_eff.
+  - apply effs_one, gift_ready_eff; exact I.
+  - apply turn_effs; exact I.
+Qed.
+
+Lemma run_from_inv ops : forall s, AInv (abs s) -> AInv (abs (fold_left step ops s)).
+Proof.
+  induction ops as [|o ops IH]; intros s I; cbn [fold_left]; [exact I|].
+  apply IH. eapply effs_preserves; [apply step_effs; exact I | exact I].
+Qed.
+
+Lemma run_inv ops : AInv (abs (run ops)).
+Proof. apply run_from_inv. apply AInv_init. Qed.
+
+(* ------------------------------------------------------------------ *)
+(* the theorems *)
+
+Lemma entered_sub_pipe s : sublist (entered s) (apipe (abs s)).
+Proof. unfold apipe, abs, entered. cbn [a_trace]. apply sublist_app_l. Qed.
+
+(* calls are entered in the order in which they were issued (call k = the k-th issued) *)
+Theorem entered_in_issue_order ops : sublist (entered (run ops)) (issued (run ops)).
+Proof.
+  eapply sublist_trans; [apply entered_sub_pipe|]. apply (ai_sub _ (run_inv ops)).
+Qed.
+
+Theorem entered_increasing ops : StronglySorted lt (entered (run ops)).
+Proof. eapply sublist_sorted; [apply entered_in_issue_order | apply seq_sorted]. Qed.
+
+Theorem entered_at_most_once ops : NoDup (entered (run ops)).
+Proof. eapply sublist_nodup; [apply entered_in_issue_order | apply seq_NoDup]. Qed.
+
+Lemma rev_mid {A} (l1 l2 : list A) x : rev (l1 ++ x :: l2) = rev l2 ++ x :: rev l1.
+Proof. rewrite rev_app_distr. cbn [rev]. rewrite <- app_assoc. reflexivity. Qed.
+
+(* head of line: when c is entered, every earlier call that was completely received (queued) at any time
+   has already been entered or has failed *)
+Theorem head_of_line ops before c after c' :
+  history (run ops) = before ++ Entered c :: after ->
+  c' < c -> In (Queued c') (history (run ops)) ->
+  In (Entered c') before \/ In (Failed c') before.
+Proof.
+  unfold history. intros E Hlt Hq.
+  assert (Et : trace (run ops) = rev after ++ Entered c :: rev before).
+  { rewrite <- (rev_involutive (trace (run ops))), E. apply rev_mid. }
+  rewrite <- in_rev in Hq.
+  destruct (ai_hol _ (run_inv ops) _ _ _ c' Et Hlt Hq) as [H|H]; [left|right]; apply in_rev; exact H.
+Qed.
+
+(* nothing is dropped silently: every issued call is entered, still on its way, or was refused *)
+Theorem no_silent_loss ops c :
+  c < next_id (run ops) ->
+  In c (entered (run ops)) \/ In c (pipeline (run ops)) \/
+  In (Failed c) (history (run ops)) \/ In (Rejected c) (history (run ops)).
+Proof.
+  intros H. destruct (ai_all _ (run_inv ops) c H) as [Hp|[Hf|Hr]].
+  - unfold apipe, abs in Hp. cbn [a_trace a_wait a_inq a_up] in Hp. unfold pipeline, entered.
+    rewrite !in_app_iff in *. tauto.
+  - right; right; left. unfold history. rewrite <- in_rev. exact Hf.
+  - right; right; right. unfold history. rewrite <- in_rev. exact Hr.
+Qed.
+
+(* the receiver holds at most one dequeued call that is not yet ready *)
+Theorem one_waiting ops : List.length (waiting (run ops)) <= 1.
+Proof. destruct (wait_len _ (run_inv ops)) as [->|[x ->]]; cbn; lia. Qed.
+
+(* ---- ids are issue indices *)
+Lemma pump_next f s : next_id (pump f s) = next_id s.
+Proof. pose proof (pump_abs f s) as H. apply (f_equal a_next) in H. exact H. Qed.
+
+Lemma do_next_next s : next_id (do_next s) = next_id s.
+Proof.
+  unfold do_next. destruct (blocked s); [reflexivity|].
+  destruct (q_take inq_pop (inq s)) as [[[c r] rest]|]; [|reflexivity]. destruct r; reflexivity.
+Qed.
+
+Lemma thunks_next batch : forall s, next_id (fold_left run_thunk batch s) = next_id s.
+Proof.
+  induction batch as [|t b IH]; intros s; cbn [fold_left]; [reflexivity|].
+  rewrite IH. destruct t; apply do_next_next.
+Qed.
+
+Lemma step_next s o : next_id (step s o) = next_id s + match o with Issue _ _ => 1 | _ => 0 end.
+Proof.
+  destruct o; cbn [step].
+  - unfold issue. match goal with |- context [if ?b then _ else _] => destruct b end;
+      rewrite ?pump_next; cbn [next_id]; lia.
+  - pose proof (release_abs s) as H. apply (f_equal a_next) in H. cbn [abs a_next] in H. lia.
+  - unfold deliver. destruct (wire s); [lia|]. destruct (cfate c); cbn [next_id]; lia.
+  - unfold gift_ready. destruct (find _ _); cbn [finish_call next_id]; lia.
+  - unfold turn. rewrite thunks_next. cbn [next_id]. lia.
+Qed.
+
+Lemma count_issues_cons o ops :
+  count_issues (o :: ops) = match o with Issue _ _ => 1 | _ => 0 end + count_issues ops.
+Proof. unfold count_issues. cbn [filter]. destruct o; reflexivity. Qed.
+
+Lemma run_from_next ops : forall s, next_id (fold_left step ops s) = next_id s + count_issues ops.
+Proof.
+  induction ops as [|o ops IH]; intros s; cbn [fold_left].
+  - unfold count_issues; cbn; lia.
+  - rewrite IH, step_next, count_issues_cons. lia.
+Qed.
+
+Theorem issued_is_issue_count ops : issued (run ops) = seq 0 (count_issues ops).
+Proof. unfold issued, run. rewrite run_from_next. reflexivity. Qed.
+
+(* ------------------------------------------------------------------ *)
+(* the sender never sits idle on a non-empty queue *)
+
+Definition SInv (s : state) : Prop := cur s = None -> sendq s = [].
+
+Lemma pump_idle f : forall s, List.length (sendq s) < f -> SInv (pump f s).
+Proof.
+  induction f as [|f IH]; intros s Hl; [lia|]. cbn [pump].
+  destruct (cur s) as [p|] eqn:Ec; [intros H; congruence|].
+  rewrite sendq_take. destruct (sendq s) as [|c rest] eqn:Eq; [intros _; exact Eq|].
+  destruct (stalls c) eqn:Es.
+  - apply IH. cbn [sendq]. cbn [List.length] in Hl. lia.
+  - intros H. cbn [cur] in H. discriminate.
+Qed.
+
+Lemma issue_sinv st f s : SInv s -> SInv (issue st f s).
+Proof.
+  intros I. unfold issue. rewrite idle_test_before_enqueue.
+  destruct (cur s) as [p|] eqn:Ec; cbn [is_none andb].
+  - intros H. cbn [cur] in H. congruence.
+  - rewrite (I Ec). cbn [is_nil]. apply pump_idle. cbn [sendq]. lia.
+Qed.
+
+Lemma release_sinv s : SInv s -> SInv (release s).
+Proof.
+  intros I. unfold release. destruct (cur s) as [[c [|[|m]]]|] eqn:Ec.
+  - apply pump_idle. cbn [sendq]. lia.
+  - apply pump_idle. cbn [sendq]. lia.
+  - intros H. cbn [cur] in H. discriminate.
+  - exact I.
+Qed.
